@@ -197,6 +197,9 @@ def gen_schema_obj(rng: random.Random, depth: int = 3) -> dict:
     structural = depth > 0
     if k < 0.08:
         return s                                         # {}
+    if rng.random() < 0.10:
+        # a bare type: the plain class, no Rule around it (fields of such a type take the parser's shortest paths)
+        return {"type": rng.choice(PRIMS + ["integer", "number"] + (["array", "object"] if structural else []))}
     if k < 0.55:                                         # one explicit type
         t = rng.choice(PRIMS + (["array", "object"] * 2 if structural else []))
         s["type"] = t
@@ -332,6 +335,8 @@ def gen_instance(rng: random.Random, s, depth: int = 3):
         return None
     if t == "boolean":
         return rng.random() < 0.5
+    if t in ("integer", "number") and rng.random() < 0.12:
+        return rng.random() < 0.5                        # Python's bool is an int: the value a number must not let through
     if t == "integer":
         return _num_for(rng, s, True)
     if t == "number":
